@@ -214,6 +214,31 @@ func bodyC16(s *Sim) {
 		all()
 	}
 	reapply(time.Second)
+	// the manifest is applied once more and the user edits a strategy field between the read and
+	// the write of the reconcile that defaults it
+	s.userReapply(def.NS, def.Name)
+	s.StartReconcile(CtrlEDS, key)
+	synctestWait()
+	if p := s.canonicalPending(); len(p) > 0 {
+		s.grant(p[0], "")
+	}
+	if e := s.Store.GetEDS(def.NS, def.Name); e != nil {
+		switch s.rngEnv.IntN(3) {
+		case 0:
+			e.Spec.Strategy.RollingUpdate.MaxUnavailable = intOrStr("30%")
+		case 1:
+			e.Spec.Strategy.RollingUpdate.SlowStartAdditiveIncrease = intOrStr("7")
+		default:
+			if c := e.Spec.Strategy.Canary; c != nil {
+				c.Replicas = intOrStr("2")
+			} else {
+				e.Spec.Strategy.RollingUpdate.MaxUnavailable = intOrStr("30%")
+			}
+		}
+		s.Store.ForceUpdate(e)
+	}
+	s.Drain()
+	all()
 	// template change: canary (or rolling update) to its end
 	s.userSetTemplate(def.NS, def.Name, "B")
 	for i := 0; i < 3; i++ {
